@@ -153,4 +153,25 @@ mod tests {
 #[allow(unused_imports, missing_docs, dead_code, unreachable_pub)]
 pub mod verif {
     use super::*;
+
+    /// `ShwapMultihasher::new(store).hash(code, input)`: the multihash bytes
+    /// (`Multihash::to_bytes`) or the error class plus its message
+    pub async fn shwap_multihash<S: Store + 'static>(
+        store: Arc<S>,
+        multihash_code: u64,
+        input: &[u8],
+    ) -> std::result::Result<Vec<u8>, (&'static str, String)> {
+        match ShwapMultihasher::new(store).hash(multihash_code, input).await {
+            Ok(mh) => Ok(mh.to_bytes()),
+            Err(MultihasherError::UnknownMultihashCode) => Err(("UnknownMultihashCode", String::new())),
+            Err(MultihasherError::InvalidMultihashSize) => Err(("InvalidMultihashSize", String::new())),
+            Err(MultihasherError::Custom(s)) => Err(("Custom", s)),
+            Err(MultihasherError::CustomFatal(s)) => Err(("CustomFatal", s)),
+        }
+    }
+
+    /// `get_block_container(expected_cid, block)`
+    pub fn block_container(expected_cid: &Cid, block: &[u8]) -> std::result::Result<Vec<u8>, String> {
+        get_block_container(expected_cid, block).map_err(|e| e.to_string())
+    }
 }
